@@ -1428,17 +1428,18 @@ class AdapterIndex:
         the best match or None if no match was found
         """
         affix = self._make_affix(sequence.upper(), self._length)
+        length = self._length
         if "N" in affix:
             result = self._lookup_with_n(affix)
             if result is None:
                 return None
-            adapter, e, m = result
+            adapter, e, m, length = result
         else:
             try:
                 adapter, e, m = self._index[affix]
             except KeyError:
                 return None
-        return self._make_match(adapter, self._length, m, e, sequence)
+        return self._make_match(adapter, length, m, e, sequence)
 
     def _match_to_multiple_lengths(self, sequence: str):
         """
@@ -1466,12 +1467,13 @@ class AdapterIndex:
                 result = self._lookup_with_n(affix)
                 if result is None:
                     continue
-                adapter, e, m = result
+                adapter, e, m, match_length = result
             else:
                 try:
                     adapter, e, m = self._index[affix]
                 except KeyError:
                     continue
+                match_length = length
 
             if m > best_m or (m == best_m and e < best_e):
                 # TODO this could be made to work:
@@ -1479,7 +1481,7 @@ class AdapterIndex:
                 best_adapter = adapter
                 best_e = e
                 best_m = m
-                best_length = length
+                best_length = match_length
 
         if best_m == -1:
             return None
@@ -1502,7 +1504,8 @@ class AdapterIndex:
         match = adapter.match_to(affix)
         if match is None:
             return None
-        return adapter, match.errors, match.score
+        # The re-alignment may cover less of the affix than was looked up
+        return adapter, match.errors, match.score, match.rstop - match.rstart
 
 
 class IndexedPrefixAdapters(Matchable):
